@@ -63,6 +63,33 @@ pub fn run(case: &Value) -> Value {
         }
         "chardata" => chardata(case),
         "create" => create(case),
+        "queries" => {
+            // a series of queries against ONE document and ONE context, then each again with a fresh context
+            let doc = case["doc"].as_str().unwrap_or("<r/>");
+            let exprs: Vec<String> = case["exprs"].as_array().map(|a| a.iter().map(|v| v.as_str().unwrap_or("").to_string()).collect()).unwrap_or_default();
+            match xml_dom::XmlDocument::from_raw(doc) {
+                Ok((_, d)) => {
+                    let mut shared = xml_xpath::eval::model::Context::default();
+                    let mut with_shared = vec![];
+                    let mut with_fresh = vec![];
+                    for e in exprs.iter() {
+                        let r = match xml_xpath::query(d.clone(), e.as_str(), &mut shared) {
+                            Ok(v) => format!("ok:{:?}", v),
+                            Err(er) => format!("err:{:?}", er),
+                        };
+                        with_shared.push(r.chars().take(160).collect::<String>());
+                        let mut fresh = xml_xpath::eval::model::Context::default();
+                        let r = match xml_xpath::query(d.clone(), e.as_str(), &mut fresh) {
+                            Ok(v) => format!("ok:{:?}", v),
+                            Err(er) => format!("err:{:?}", er),
+                        };
+                        with_fresh.push(r.chars().take(160).collect::<String>());
+                    }
+                    json!({"shared": with_shared, "fresh": with_fresh, "printed": format!("{}", d)})
+                }
+                Err(e) => json!({"ok": false, "doc_err": format!("{:?}", e)}),
+            }
+        }
         "order" => {
             // kernel-level replay of one DocumentOrder step through the verif hook
             let k = case["k"].as_u64().unwrap_or(1) as usize;
